@@ -129,7 +129,7 @@ func zzCheckBlock(tag string, data []byte, w int, off int64, windowSize, blockSi
 	if unparsed < blockSize {
 		blockEnd = w + unparsed
 	}
-	verifAssert(1 <= nn && w+nn <= blockEnd, tag+": n outside 1..min(BlockSize, unparsed) [C03]")
+	verifAssert(1 <= nn && w+nn <= blockEnd, tag+": n outside 1..min(BlockSize, unparsed) [C03,C16]")
 	verifAssert(wAfter == w+nn, tag+": W not advanced by n [C03]")
 	if nn < 1 || w+nn > blockEnd {
 		return
